@@ -619,3 +619,12 @@ package main
   (ensures store-error-propagates (=> (not (= (callresult "main.NewStore" 0 1) nil)) (not (= $r1 nil))))
   (ensures returns-object (=> (= $r1 nil) (not (isnil $r0)))))
 */
+
+/*@
+; remote hash upgrade: the master is asked to re-authenticate with the login password (old password), never to set it blindly
+(func "main.remoteHTTPUpgrade"
+  (noframe)
+  (callsite "encoding/json.Marshal" 0
+    (requires old-password-only (props C12) (and (= (. (boxed $0) Username) (. update username)) (= (. (boxed $0) OldPassword) (. update password))
+                                     (= (. (boxed $0) NewPassword) "") (= (. (boxed $0) Session) "")))))
+*/
